@@ -17,7 +17,8 @@ CONSTANTS Colls,      \* names of collections
           Actors,     \* names of actors (each runs transactions, one at a time)
           Offsets,    \* finite set of naturals: the individually tracked row offsets
           BlockSize,  \* rows per block (16384 in the code)
-          Known       \* set of deviation names that are accepted (as-built behaviour)
+          Known,      \* set of deviation names that are accepted (as-built behaviour)
+          Guard       \* BOOLEAN: invariants are excused by the deviations taken (FALSE only in negative controls)
 
 VARIABLES st,    \* st[c]: the state of collection c (record, see EmptyStore)
           txn,   \* txn[t]: the transaction of actor t
@@ -569,7 +570,7 @@ BulkReplay(c, cm, id) ==
 (* Observable state and the properties                                      *)
 
 \* an invariant is excused once the execution has taken one of the catalogued deviations that break it
-Excused(ds) == dev \cap ds # {}
+Excused(ds) == Guard /\ dev \cap ds # {}
 
 Quiescent(c) == \A t \in Actors : txn[t].c = c => txn[t].pc \in {"idle", "done"}
 NoLatch(c) == st[c].wl = {}
@@ -635,6 +636,11 @@ NoStaleValues ==
   Excused({"D-write-dead-row", "D-failed-insert-applied"}) \/
   \A c \in Colls : NoLatch(c) =>
     \A n \in DOMAIN st[c].reg : st[c].has[n] \subseteq st[c].live
+
+\* C02/C11: what is occupied is exactly the committed rows plus the offsets reserved by transactions in flight
+FillAccounting ==
+  Excused({"D-dead-delete", "D-failed-insert-applied"}) \/
+  \A c \in Colls : st[c].fill = st[c].live \cup UNION {txn[t].reserved : t \in {t \in Actors : txn[t].c = c}}
 
 \* C15: ids are distinct, non-zero and increase per block in emission order
 StreamIds ==
